@@ -98,7 +98,8 @@ func Main() {
 		Assumptions: []string{
 			"identity of indexes = same sequence of (path, modTime, footprints); nil and empty slices are the same; floats by bit pattern",
 			"content changes always come with a new modification time (logical clock through os.Chtimes); the cache is keyed by path + modification time by design",
-			"a payload fault re-compressed with a valid gzip checksum is undetectable by any reader of this format: the recovery law for it accepts, per entry, the from-scratch entry or the accepted entry with the same path and modification time; file-level faults (prefixes, byte changes of F, crash images) must recover to exactly the from-scratch scan",
+			"a payload fault re-compressed with a valid gzip checksum that leaves the payload's own structure intact (independent structural reader in fault.go: version, count, consistent segment and field lengths; trailing bytes allowed) cannot be told from a good file by any reader of this grammar: the recovery law for it accepts, per entry, the from-scratch entry or the accepted entry with the same path and modification time; file-level faults (prefixes, byte changes of F, crash images) and payload faults that break the structure must recover to exactly the from-scratch scan",
+			"the whole-corpus index (thorough) gets 12000 sampled faults instead of the full enumeration",
 			"reader budgets: bytes allocated <= 16 MiB + 4096*len(file), CPU <= 2 s per read",
 			"expected footprints in the conformance law come from newFootprintFromLoader applied directly to the file bytes",
 		},
